@@ -61,7 +61,9 @@ def long_inputs(case, rng, n, alphabet):
         L = rng.randint(5, 40)
         w = []
         for _ in range(L):
-            w.append(rng.choice(alphabet) if rng.random() < 0.85 else rng.choice(exotic))
+            x = rng.random()
+            # several lines per input: the driver resynchronises at the next line after a lexical error
+            w.append(0x0A if x < 0.07 else (rng.choice(alphabet) if x < 0.87 else rng.choice(exotic)))
         out.append(w)
     return out
 
@@ -361,7 +363,7 @@ def c11(tier):
     cases = list(lgrams.nullable_cases()) + list(lgrams.CURATED_GREEDY) + list(lgrams.CURATED_MODES)
     cases += lgrams.ng_cases()[-4:] + lgrams.random_specs(seed() + 11, 15 if quick else 200)
     cases = json.loads(json.dumps(cases))
-    X = lex_explore(rep, sc, cases, rng, 400 if quick else 3000, 400 if quick else 3000, 15 if quick else 100, alpha_cap=5)
+    X = lex_explore(rep, sc, cases, rng, 400 if quick else 3000, 400 if quick else 3000, 60 if quick else 300, alpha_cap=5)
     acc, lruns = X["acc"], X["lruns"]
     full = [r for r in lruns if r["full"]]
     tv, rt = run_lextrace(sc, X["lcases"], full, timeout=2400)
@@ -399,13 +401,17 @@ def c11(tier):
             while k >= 0 and r["steps"][k][1] in (0, 3, 4):
                 accum = accum or r["steps"][k][1] == 3
                 k -= 1
-            if accum:
+            conforms = tvr.get(id(r), {}).get("lt") == "ok"     # the known mechanisms are behaviours of the model
+            if accum and conforms:
                 sig = "c11.eof-drops-accumulated-text"
-            elif state_before_eof(r) == 0:
+            elif state_before_eof(r) == 0 and conforms:
                 sig = "c11.eof-in-start-state-drops-consumed-text"
             else:
                 sig = "c11.eof-with-unfinished-token:" + c["id"]
             why = "text %s dropped at EOF (machine state %s)" % ([s for s in b["segs"] if s[0] == "lost"], state_before_eof(r))
+        elif b.get("badsegs"):
+            sig = "c11.segment-text-does-not-match-its-rule:" + c["id"]
+            why = "segment(s) %s of %s consist of text no rule with that effect can match" % (b["badsegs"], b["segs"])
         else:
             sig = "c11.unaccounted-text:" + c["id"]
             why = "segments %s do not partition the %d input bytes (%s)" % (b["segs"], b["nbytes"], b["end"])
